@@ -202,8 +202,11 @@ func VerifHarness_C02_ChoicesAndPrimitiveValues() {
 	// primitive values
 	active := verifrt.NondetBool("active")
 	text := verifrt.NondetString("family", 2)
+	birthZone := verifrt.Choose("birthZone", 4)
 	p := &ppb.Patient{Active: &dtpb.Boolean{Value: active}, Name: []*dtpb.HumanName{{Family: &dtpb.String{Value: text}}},
-		BirthDate: &dtpb.Date{ValueUs: 1709164800000000, Timezone: "Z", Precision: dtpb.Date_DAY}}
+		// (a date element holds the midnight of its own zone: 2024-02-29 wherever it was recorded)
+		BirthDate: &dtpb.Date{ValueUs: 1709164800000000 - 1000000*[]int64{0, 19800, -28800, 50400}[birthZone],
+			Timezone: []string{"Z", "+05:30", "-08:00", "+14:00"}[birthZone], Precision: dtpb.Date_DAY}}
 	pin := system.Collection{p}
 	got, err = verifPathOf("Patient", "active", "value").Evaluate(ctx, pin)
 	verifrt.Assert(err == nil && len(got) == 1 && got[0] == system.Boolean(active), "boolean-value")
